@@ -181,6 +181,7 @@ func propC01(c *Ctx) {
 
 	c.Rule("R1.6", "shared cached blocks: a log is dropped only as a duplicate; the cache serves only the requested range; the logs request spans the range and probes its last block", 8)
 	checkLogsAddDedup(c, "R1.6")
+	checkLogsMergedNotReplaced(c, "R1.6")
 	checkCacheKeyIdentity(c, "R1.6")
 	checkLogsProbe(c, "R1.6")
 
